@@ -91,18 +91,28 @@ Fixpoint request_all (room : nat) (subs : list N) (st : N) (resps : list (list a
     end
   end.
 
-(* all answers of one frame name the desired state, none with the error indication? *)
-Definition ans_ok (st : N) (a : answer) : bool := negb (al_error (fst a)) && (al_state (fst a) =? st).
+(* all answers of one frame were serviced by exactly one device and name the desired state, none
+   with the error indication? *)
+Definition ans_ok (st : N) (a : answer) : bool :=
+  (snd a =? 1) && negb (al_error (fst a)) && (al_state (fst a) =? st).
 Definition frame_ok (st : N) (ans : list answer) : bool := forallb (ans_ok st) ans.
 
-(* the answers of a frame are looked at in order; the first that is not "requested state, no
-   error" decides: an error indication ends the wait with Err(StateTransition), another state
-   means "not yet" *)
-Fixpoint frame_error (st : N) (ans : list answer) : bool :=
+(* the answers of a frame are looked at in order; the first that is not "one device answered,
+   requested state, no error" decides: a wrong working counter and an error indication end the
+   wait with an error, another state means "not yet" *)
+Inductive verdict := VAll | VNotYet | VFail (e : terr).
+Fixpoint frame_scan (st : N) (ans : list answer) : verdict :=
   match ans with
-  | [] => false
-  | a :: r => if al_error (fst a) then true else if al_state (fst a) =? st then frame_error st r else false
+  | [] => VAll
+  | (data, wkc) :: r =>
+    if negb (wkc =? 1) then VFail (TWkc 1 wkc)
+    else if al_error data then VFail TStateTransition
+    else if al_state data =? st then frame_scan st r else VNotYet
   end.
+
+(* an error indication is what decides the frame *)
+Definition frame_error (st : N) (ans : list answer) : bool :=
+  match frame_scan st ans with VFail TStateTransition => true | _ => false end.
 
 (* one is_state call.  Returns (verdict, remaining answers, frames sent, frames used).
    [used] counts frames so far in the whole wait; the timeout is noticed when a frame's answer
@@ -121,10 +131,11 @@ Fixpoint is_state (fuel : nat) (c : tcfg) (subs : list N) (resps : list (list an
       | [] => (Err TInternal, [], [frame], S used)
       | ans :: more =>
         if (t_limit c <=? S used)%nat then (Err TTimeout, more, [frame], S used)
-        else if frame_ok (t_desired c) ans then
-          let '(r, rs, fs, u) := is_state f c rest more (S used) in (r, rs, frame :: fs, u)
-        else if frame_error (t_desired c) ans then (Err TStateTransition, more, [frame], S used)
-        else (Ok false, more, [frame], S used)
+        else match frame_scan (t_desired c) ans with
+             | VAll => let '(r, rs, fs, u) := is_state f c rest more (S used) in (r, rs, frame :: fs, u)
+             | VFail e => (Err e, more, [frame], S used)
+             | VNotYet => (Ok false, more, [frame], S used)
+             end
       end
     end
   end.
